@@ -400,7 +400,7 @@ class C07(Property):
             'total, one perturbed concentration, fully random y/params incl. zeros and K = 0; precipitate systems for the stoichs switch. '
             'Non-trivial: distinct JSON value with at least one reaction.')
     assumptions = ('integer stoichiometric coefficients and composition counts; species with a composition dict',
-                   'shapes len(y) = ns, len(params) = ns + nr; new_eq_params = True',
+                   'shapes len(y) = ns, len(params) = ns + nr (new_eq_params=True) resp. ns (new_eq_params=False; longer: AssertionError, compared)',
                    'rref_equil / rref_preserv = True: the reducer (sympy) output is a parameter of the model; the hypothesis RowEquiv of the '
                    'rref theorems is checked exactly per instance; model vs real f compared in Float at 1e-9 of the row scale',
                    'LinRel: chempy accumulates element totals in a Python float, exact model compared at 1e-9 of the row scale; '
@@ -422,14 +422,24 @@ class C07(Property):
         'histories on ONE EqSystem object (evaluate, `eqsys += [Equilibrium…]`, `rxn.param` set in place, evaluate again in every '
         'formulation/configuration): the model is a pure function of (system, y, params), i.e. it describes each evaluation of the '
         'CURRENT system; that the real object has no stale state between evaluations is oracle-only (op history)',
-        'new_eq_params=False, _NumSysLinNegPenalty, non-integer stoichiometric coefficients, composition=None: not modelled, not sampled',
+        'EqSystem.root forwarding NumSys / rref_equil / rref_preserv unchanged to get_neqsys and warning exactly when the solver reports '
+        'failure: oracle only (stand-in solver); the solver itself and internal_x0_cb (starting points) belong to C08',
+        'a species with composition=None: composition_keys skips it (compared), but NumSys*.f then raises AttributeError in '
+        'composition_balance_vectors when other species have compositions, and has NO conservation equations when none has — outside the '
+        'quantifier (formula-defined species), not modelled',
+        '_NumSysLinNegPenalty, non-integer stoichiometric coefficients, composition=None: not modelled, not sampled',
         'Balanced (B nu^T = 0) is a hypothesis of extent_preserves_totals; that the constructor check_balance establishes it is checked '
         'by the structure oracle per instance (C05 owns the theorem)',
         'that EqSystem.root builds params = init_concs ++ [rxn.param] is tied by correspondence (captured with a stand-in solver) to '
         'the model function solverParams; lin_zero_iff_reaction_constants is a theorem about that model function',
     )
-    anchors = (('chempy/_eqsys.py', '_NumSys'), ('chempy/_eqsys.py', 'NumSysLin'), ('chempy/_eqsys.py', 'NumSysLog'),
-               ('chempy/_eqsys.py', 'NumSysSquare'), ('chempy/_eqsys.py', 'NumSysLinRel'),
+    # the methods that are mirrored; `internal_x0_cb` (the solver's starting point) of each class belongs to C08
+    anchors = (('chempy/_eqsys.py', '_NumSys.__init__'), ('chempy/_eqsys.py', '_NumSys._get_A_ks'), ('chempy/_eqsys.py', '_NumSys._inits_and_eq_params'),
+               ('chempy/_eqsys.py', 'NumSysLin.f'),
+               ('chempy/_eqsys.py', 'NumSysLog.pre_processor'), ('chempy/_eqsys.py', 'NumSysLog.post_processor'), ('chempy/_eqsys.py', 'NumSysLog.f'),
+               ('chempy/_eqsys.py', 'NumSysSquare.pre_processor'), ('chempy/_eqsys.py', 'NumSysSquare.post_processor'), ('chempy/_eqsys.py', 'NumSysSquare.f'),
+               ('chempy/_eqsys.py', 'NumSysLinRel.max_concs'), ('chempy/_eqsys.py', 'NumSysLinRel.pre_processor'),
+               ('chempy/_eqsys.py', 'NumSysLinRel.post_processor'), ('chempy/_eqsys.py', 'NumSysLinRel.f'),
                ('chempy/equilibria.py', 'EqSystem.eq_constants'), ('chempy/equilibria.py', 'EqSystem.stoichs_constants'),
                ('chempy/equilibria.py', 'EqSystem.equilibrium_quotients'), ('chempy/equilibria.py', 'EqSystem.composition_conservation'),
                ('chempy/equilibria.py', 'EqSystem.non_precip_rids'), ('chempy/equilibria.py', 'EqSystem.root'), ('chempy/equilibria.py', 'EqSystem.phase_transfer_reaction_idxs'),
@@ -524,12 +534,20 @@ class C07(Property):
         return out
 
     def _gen_history(self, rng, spec, es_kind):
-        """a history on one object: start with the first k reactions, evaluate, add the rest in one or two `+=`, evaluate after
-        each change — every formulation / reduction configuration, planted for the system AS IT IS at that step"""
+        """a history on one object: start with the first k reactions (and only part of the substances), evaluate, add the rest in
+        place — `+= [Equilibrium…]` among known substances, `+= EqSystem(…)` bringing its own (possibly new) substances, a refused
+        `+= [42]` — and evaluate after each change: every formulation / reduction configuration, planted for the system AS IT IS"""
         rxns = spec['rxns']
+        species = spec['species']
         nr = len(rxns)
+
+        def names_of(rs):
+            return {k_ for r in rs for part in r.values() for k_, _ in part}
         k = rng.randint(1, nr - 1)
         cur = list(rxns[:k])
+        need = names_of(cur)
+        cur_species = [sp for sp in species if sp['name'] in need or rng.random() < 0.5]
+        initial_species = list(cur_species)
         steps = []
 
         def ev(newest=None):
@@ -539,22 +557,33 @@ class C07(Property):
             vi = None
             if kind == 'viol_q' and newest is not None and rng.random() < 0.7:
                 vi = rng.choice(newest)            # violate an equilibrium that was added in place
-            now = {'species': spec['species'], 'rxns': cur}
+            now = {'species': list(cur_species), 'rxns': cur}
             y, p, info = self._planted(rng, now, form, kind, narrow=True if (re_ or rp_) else None, viol_index=vi)
             steps.append({'do': 'eval', 'form': form, 'kind': info['kind'], 'rref_equil': re_, 'rref_preserv': rp_,
-                          'own': rng.random() < 0.4, 'y': [rj(v) for v in y], 'params': [rj(v) for v in p]})
+                          'own': rng.random() < 0.4, 'species': list(cur_species), 'y': [rj(v) for v in y], 'params': [rj(v) for v in p]})
         ev()
         rest = list(rxns[k:])
         while rest:
             m = rng.randint(1, len(rest))
             chunk, rest = rest[:m], rest[m:]
             first = len(cur)
-            steps.append({'do': 'add', 'rxns': chunk})
+            if rng.random() < 0.25:
+                steps.append({'do': 'add_bad'})              # `+= [42]`: ValueError, the object stays as it is
+            need = names_of(chunk)
+            known = {sp['name'] for sp in cur_species}
+            if not need <= known or rng.random() < 0.35:
+                other = [sp for sp in species if sp['name'] in need]
+                rng.shuffle(other)
+                steps.append({'do': 'add_system', 'rxns': chunk, 'species': other})   # += EqSystem: substances.update + rxns.extend
+                cur_species = cur_species + [sp for sp in other if sp['name'] not in known]
+            else:
+                steps.append({'do': 'add', 'rxns': chunk})
             cur = cur + chunk
             ev(newest=list(range(first, len(cur))))
             if rng.random() < 0.5:
                 ev(newest=list(range(first, len(cur))))
-        return {'op': 'history', 'sys': spec, 'sys_kind': es_kind, 'initial_rxns': list(rxns[:k]), 'steps': steps}
+        return {'op': 'history', 'sys': spec, 'sys_kind': es_kind, 'initial_rxns': list(rxns[:k]), 'initial_species': initial_species,
+                'steps': steps}
 
     def generate(self, rng, n, tier):
         cases = []
@@ -808,6 +837,8 @@ class C07(Property):
                 x = np.array([bits2f(v) for v in mc['x']])
                 params = np.array([bits2f(v) for v in mc['params']])
                 fn = NS(es).pre_processor if mc['dir'] == 'pre' else NS(es).post_processor
+                if mc['form'] == 'linrel' and not np.all(np.isfinite(NS(es).max_concs(params))):
+                    return 'inf'        # a charge-only species has the bound inf (side condition of linrel_zero_iff); the model says "inf"
                 with np.errstate(all='ignore'):
                     out, p2 = fn(x, params)
                 if list(map(float, p2)) != list(map(float, params)):
@@ -1367,12 +1398,35 @@ class C07(Property):
         steps so far): zero pattern entry by entry, equation count = current nr + conservation relations"""
         from chempy import Equilibrium
         base = c['sys']
-        es = build({'species': base['species'], 'rxns': c['initial_rxns']}, Ks=[1] * len(c['initial_rxns']))   # fresh, uncached
+        cur_species = list(c.get('initial_species') or base['species'])
+        es = build({'species': cur_species, 'rxns': c['initial_rxns']}, Ks=[1] * len(c['initial_rxns']))   # fresh, uncached
         if has_other_phase(es):
             return None
         cur = list(c['initial_rxns'])
         done = []
         for si, st in enumerate(c['steps']):
+            if st['do'] == 'add_bad':
+                before = (list(es.substances.keys()), len(es.rxns))
+                try:
+                    es += [42]
+                except ValueError:
+                    pass
+                except Exception as e:
+                    return 'step %d: `eqsys += [42]` raised %s, not ValueError' % (si, exc_name(e))
+                else:
+                    return 'step %d: `eqsys += [42]` was accepted' % si
+                if (list(es.substances.keys()), len(es.rxns)) != before:
+                    return 'step %d: a refused `+=` changed the system' % si
+                done.append('+= [42] refused')
+                continue
+            if st['do'] == 'add_system':
+                other = build({'species': st['species'], 'rxns': st['rxns']}, Ks=[1] * len(st['rxns']))
+                es += other
+                known = {sp['name'] for sp in cur_species}
+                cur_species = cur_species + [sp for sp in st['species'] if sp['name'] not in known]
+                cur = cur + list(st['rxns'])
+                done.append('+= EqSystem(%d rxns, %d substances)' % (len(st['rxns']), len(st['species'])))
+                continue
             if st['do'] == 'add':
                 new = [Equilibrium({k: v for k, v in r['reac']}, {k: v for k, v in r['prod']}, 1,
                                    inact_reac={k: v for k, v in r['inact_reac']}, inact_prod={k: v for k, v in r['inact_prod']})
@@ -1381,12 +1435,15 @@ class C07(Property):
                 cur = cur + list(st['rxns'])
                 done.append('+= %d' % len(new))
                 continue
+            now_species = st.get('species') or base['species']
+            if [sp['name'] for sp in now_species] != list(es.substances.keys()):
+                return 'step %d (%s): substances are %r, expected %r' % (si, ', '.join(done), list(es.substances.keys()), [sp['name'] for sp in now_species])
             sub = {'op': 'rref' if (st['rref_equil'] or st['rref_preserv']) else 'f', 'form': st['form'], 'kind': st['kind'],
-                   'sys': {'species': base['species'], 'rxns': cur}, 'sys_kind': c['sys_kind'], 'precipitates': [],
+                   'sys': {'species': now_species, 'rxns': cur}, 'sys_kind': c['sys_kind'], 'precipitates': [],
                    'rref_equil': st['rref_equil'], 'rref_preserv': st['rref_preserv'], 'y': st['y'], 'params': list(st['params'])}
             if st.get('own'):
                 # the constants live on the reactions: set them in place, evaluate with the object's own eq_constants()
-                ns = len(base['species'])
+                ns = len(now_species)
                 Ks = [unrj(v) for v in st['params'][ns:]]
                 if len(es.rxns) == len(Ks):
                     for r_, k_ in zip(es.rxns, Ks):
